@@ -60,4 +60,14 @@ theorem coord_is_zero_gen (v : Vec4) : SqiGen.QuatAlg.quat_alg_coord_is_zero v.x
 theorem elem_is_zero_gen (x : Elem) :
     SqiGen.QuatAlg.quat_alg_elem_is_zero x.denom x.coord.x0 x.coord.x1 x.coord.x2 x.coord.x3 = elemIsZero x := rfl
 
+/-- `quat_alg_normalize` (in place; the one-armed `if (0 < ibz_cmp(&zero, &x->denom))` as if-then-else per field;
+    `ibz_content` = the header formula gcd(v3, gcd(v2, gcd(v0, v1)))) -/
+theorem normalize_gen (x : Elem) :
+    SqiGen.QuatAlg.quat_alg_normalize x.denom x.coord.x0 x.coord.x1 x.coord.x2 x.coord.x3 = tup (algNormalize x) := by
+  have key : ∀ (c : Prop) [Decidable c] (A B : Elem), tup (if c then A else B) = if c then tup A else tup B := by
+    intro c _ A B; split <;> rfl
+  obtain ⟨d, ⟨x0, x1, x2, x3⟩⟩ := x
+  simp only [algNormalize, key]
+  split <;> simp only [SqiGen.QuatAlg.quat_alg_normalize] <;> split <;> first | rfl | exact absurd ‹_ < _› ‹¬ _›
+
 end SqiProofs.QuatAlgText
